@@ -79,4 +79,11 @@ theorem accessFD_mismatch (fd : FD) (a : Acc) (hne : fd.data ≠ [])
   | some last =>
     cases a <;> simp_all [accessFD, scalarValue, sliceValue, accWt]
 
+/-- F15b: `(*DecodeResult).close` begins with the unconditional loop that empties the recorded data of every field —
+    before the pool, the max buffer size or the filter function are looked at. This is the first step of
+    `C14Opts.closeFds` (`xs.map FDC.reset`), on which `closeFds_erases_options` rests; and nothing else in `close`
+    is a second, conditional place where data would be emptied. -/
+theorem lazyClose_resets_first :
+    Generated.lazyCloseSteps.head? = some "reset-data" ∧ (Generated.lazyCloseSteps.filter (· = "reset-data")).length = 1 := by decide
+
 end Csproto.Bridge
